@@ -9,5 +9,5 @@ git -C /repo worktree add --detach "$D/repo" HEAD >/dev/null 2>&1
 rsync -a --exclude .git --exclude .work --exclude replays --exclude .locks /verif/ "$D/verif/"
 mkdir -p "$D/verif/handoff"
 ( cd "$D/verif/harness" && sed -i "s#=> /repo#=> $D/repo#" go.mod )
-sed -i "s#/repo/go.sum#$D/repo/go.sum#; s#factgen /repo#factgen $D/repo#" "$D/verif/setup.sh"
+true
 echo "$D"
